@@ -34,7 +34,9 @@ def generate_indexed(verif_seed, tier, index):
     rng = random.Random(int.from_bytes(h[:8], "big"))
     case = resilient.gen_resilient(rng, tier, n_agents=(4, 6), per_agent=(1, 1),
                                    algos=("dsa", "mgm", "maxsum", "dsa"), tight=False,
-                                   k_range=(1, 2), max_maxsum_vars=3)
+                                   k_range=(1, 2), max_maxsum_vars=3,
+                                   shapes=("connected", "connected", "tree", "chain", "star",
+                                           "clique", "components", "components", "forest"))
     agents = [a["name"] for a in case["agents"]]
     subs = subsets(agents, case["k"])
     case["instance"] = inst
@@ -147,6 +149,11 @@ def execute(case, tape):
     if case.get("departing") is None:
         out["stats"]["skipped_rank_beyond_subsets"] += 1
         return out
+    if not any(len(c["scope"]) > 1 for c in case["constraints"]):
+        # every computation is isolated and finishes at start-up: the algorithm terminates on
+        # its own, which the property excludes
+        out["stats"]["skipped_algorithm_terminates"] += 1
+        return out
     from pydcop.dcop.scenario import Scenario, DcopEvent, EventAction
     cfg = {"preempt_p": tape.pick([0.0, 0.0, 0.01]), "stall_p": tape.pick([0.0, 0.0, 0.02])}
     k = case["k"]
@@ -249,6 +256,10 @@ def execute(case, tape):
             kinds.add("moved_without_reason")
     if problems:
         feats["problems"] = "+".join(sorted(kinds))
+        # an orphan none of whose replica holders survives the event (e.g. an isolated
+        # variable, which dist_ucs_hostingcosts cannot replicate at all)
+        feats["orphan_without_surviving_replica"] = any(
+            not (set(watch.pre_replicas.get(c, [])) - set(departing)) for c in orphaned)
     out["stats"]["repairs_audited"] += 1
     out["stats"]["repairs_with_orphans"] += 1 if orphaned else 0
     out["stats"]["status_" + str(status)] += 1
